@@ -109,7 +109,7 @@ def main() -> int:  # noqa: C901, PLR0912, PLR0915
     os.rmdir(tmp)
 
     agg = {
-        k: sum(d[k] for d in shards)
+        k: sum(d.get(k, 0) for d in shards)
         for k in (
             "programs",
             "executions",
@@ -118,6 +118,10 @@ def main() -> int:  # noqa: C901, PLR0912, PLR0915
             "nontrivial",
             "capped_programs",
             "bounded_programs",
+            "fix_programs",
+            "fix_states",
+            "fix_transitions",
+            "fix_merges_validated",
             "rechecked",
             "violation_count",
         )
@@ -251,6 +255,17 @@ def main() -> int:  # noqa: C901, PLR0912, PLR0915
         "max_deviations_in_one_execution": agg["max_deviations"],
         "programs_deviation_bounded": agg["bounded_programs"],
         "programs_capped": agg["capped_programs"],
+        "fixpoint_searches": {
+            "programs_run_to_fixpoint": agg["fix_programs"],
+            "canonical_states": agg["fix_states"],
+            "transitions": agg["fix_transitions"],
+            "merges_validated_differentially": agg["fix_merges_validated"],
+            "longest_shortest_history": max((d.get("fix_max_depth", 0) for d in shards), default=0),
+            "meaning": "explicit-state BFS over operation histories of one long-lived object, states "
+            "merged by the canonical form of the implementation's object graph + reference model, "
+            "run until no new state appears (covers histories of every length over the alphabet); "
+            "every merge re-validated by comparing all one-step continuations",
+        },
         "distinct_outcomes": len(outcomes),
         "outcome_histogram": dict(sorted(outcomes.items(), key=lambda kv: -kv[1])[:40]),
         "determinism_rechecks": agg["rechecked"],
